@@ -205,7 +205,21 @@ def adapt_oracle(op, a):
     return {**a, "clazz": a.get("clazz", "Root")}
 
 
+def adapt_disagreement(d):
+    """a `bind.roundtrip` case on which the model returns the object itself while the
+    implementation answers something else: a candidate failing input whatever the fragment"""
+    a = d.get("args") or {}
+    if d.get("op") != "bind.roundtrip" or "value" not in a:
+        return None
+    m = (d.get("model") or {}).get("ok")
+    if not m or m.get("value") != a["value"]:
+        return None
+    return {**a, "clazz": a.get("clazz", "Root"), "_model_roundtrips": True}
+
+
 def covered_oracle(a, msg):
+    if a.get("_model_roundtrips"):
+        return None  # the model of the unchanged code returns the object: no listed defect applies
     if not ns_agree_everywhere(a["ctx"]):
         return "C01-ns-chain"
     return excluded_region(a["desc"], a["value"])
@@ -235,7 +249,7 @@ CORRS.append(
 
 ORACLES = [
     Oracle("roundtrip", gen_oracle, oracle_roundtrip, covered=covered_oracle,
-           from_ops=("bind.roundtrip", "bind.generate"), adapt=adapt_oracle),
+           from_ops=("bind.roundtrip", "bind.generate"), adapt=adapt_oracle, adapt_disagreement=adapt_disagreement),
 ]
 
 
